@@ -149,7 +149,7 @@ def main(argv):
         i = 0
         if '--scratch' in rest:
             rest.remove('--scratch')
-            use_scratch(prop)
+            use_scratch('%s-%d' % (prop, os.getpid()))
         while i < len(rest):
             if rest[i] == '--also':
                 also = rest[i + 1].split(',')
